@@ -387,6 +387,7 @@ fn single_flip_case(o1: Opts, o2: Opts, inv: &HashMap<String, (u16, u8)>, st: &m
             v(&[ka, ra, hasanta]),                        // old reph, Probhat style (ra + hasanta typed after)
             v(&[ikar, ka]),                               // old vowel-sign order
             v(&[ka, aakar, ka]),                          // suggestions / ANSI / English (a dictionary prefix)
+            v(&["\u{0997}", ra]),                          // a prefix whose completions carry u-sign (traditional joining)
         ]
         .into_iter()
         .flatten()
@@ -403,12 +404,32 @@ fn single_flip_case(o1: Opts, o2: Opts, inv: &HashMap<String, (u16, u8)>, st: &m
     let sb = Sandbox::new();
     std::fs::write(sb.selection_file(), STORE0).expect("store");
     let mut a = Ctx::new(o1, &sb).map_err(pf)?;
-    // the battery once under the old configuration (so that whatever is cached, is cached)
-    for p in &probes {
+    // the battery once under the old configuration (so that whatever is cached, is cached); the words are ended in all
+    // four ways in turn (finish, ctrl-backspace, plain backspaces down to nothing, commit), rotated with the pair of
+    // configurations, so that every probe is thrown away in every way before some flip
+    let rot = hash_of(&(o1.letters(), o2.letters())) as usize;
+    for (pi, p) in probes.iter().enumerate() {
+        let mut shown = false;
         for (c, m) in p {
-            a.key(*c, *m, 0).map_err(pf)?;
+            shown = a.key(*c, *m, 0).map_err(pf)?.choices() > 0;
         }
-        a.finish().map_err(pf)?;
+        match (pi + rot) % 4 {
+            1 => {
+                a.backspace(true).map_err(pf)?;
+            }
+            2 => {
+                for _ in 0..16 {
+                    if a.backspace(false).map_err(pf)?.is_empty() {
+                        break;
+                    }
+                }
+            }
+            3 if shown => a.commit(0).map_err(pf)?,
+            _ => a.finish().map_err(pf)?,
+        }
+        if a.ongoing() {
+            a.finish().map_err(pf)?;
+        }
     }
     a.update(o2, &sb).map_err(pf)?;
     let copy = sb.duplicate();
@@ -448,6 +469,45 @@ fn single_flip_case(o1: Opts, o2: Opts, inv: &HashMap<String, (u16, u8)>, st: &m
         }
         a.finish().map_err(pf)?;
         b1.finish().map_err(pf)?;
+    }
+    // the word that was in the making is THROWN AWAY (ctrl-backspace / plain backspaces down to nothing) right before the
+    // update, and the same word is the first thing typed after it: whatever the engine kept for "the word in composition"
+    // under the old option value must be gone
+    for ending in 0..2u8 {
+        for p in &probes {
+            a.update(o1, &sb).map_err(pf)?;
+            for (c, m) in p {
+                a.key(*c, *m, 0).map_err(pf)?;
+            }
+            if ending == 0 {
+                a.backspace(true).map_err(pf)?;
+            } else {
+                for _ in 0..16 {
+                    if a.backspace(false).map_err(pf)?.is_empty() {
+                        break;
+                    }
+                }
+            }
+            if a.ongoing() {
+                a.finish().map_err(pf)?;
+            }
+            a.update(o2, &sb).map_err(pf)?;
+            let copy3 = sb.duplicate();
+            let b3 = Ctx::new(o2, &copy3).map_err(pf)?;
+            for (i, (c, m)) in p.iter().enumerate() {
+                let ra = a.key(*c, *m, 0).map_err(pf)?;
+                let rb = b3.key(*c, *m, 0).map_err(pf)?;
+                st.evals(1);
+                if ra != rb || a.ongoing() != b3.ongoing() {
+                    let names: Vec<String> = p.iter().map(|(c, m)| format!("{}{}", keys().by_code(*c).map(|k| k.name.clone()).unwrap_or_default(), if *m != 0 { "+AltGr" } else { "" })).collect();
+                    return Err((
+                        "single-option-flip-not-honoured".to_string(),
+                        format!("probe {names:?} typed under {} and thrown away by {}, update-engine to {}, the same probe again, key #{i}: the updated context returns {} but a newly created context returns {}", o1.letters(), if ending == 0 { "ctrl-backspace" } else { "plain backspaces" }, o2.letters(), ra.short(), rb.short()),
+                    ));
+                }
+            }
+            a.finish().map_err(pf)?;
+        }
     }
     st.label("single-option-flips");
     st.nontrivial(hash_of(&(o1.letters(), o2.letters())), || json!({"cfg1": o1.letters(), "cfg2": o2.letters(), "probes": probes.len()}));
